@@ -138,6 +138,7 @@ def handled_by(dec, st):
 def r18_2(ctx, m):
     dec = m.dec
     repo = ctx.repo
+    REPO[0] = repo
     tainted = taint_set(dec)
     n_shape = 0
     # constants stored into type-dispatch dictionaries (for the exhaustive-else check)
@@ -195,6 +196,49 @@ def r18_2(ctx, m):
                         ctx.check(v in allowed, "R18.2", dec.where(call), f"argument-validation assert of {callee.qualname} ({norm(t)}) is discharged by the constant argument {v!r}", key_of(dec, f"callee-assert:{norm(call)}"), nontrivial=False) if v in allowed else ctx.violated("R18.2", dec.where(call), f"constant argument {v!r} violates {callee.qualname}'s assert {norm(t)}", key_of(dec, f"callee-assert:{norm(call)}"))
 
 
+REPO = [None]
+
+
+def dict_constants(repo, func, name, depth=0):
+    """String constants stored as values of the dictionary `name` of `func`: subscript stores, dict comprehensions /
+    literals with constant values; followed through `a, b = helper(...)` / `x = helper(...); a, b = x` into the
+    position of the helper's returned tuple (or module-level namedtuple)."""
+    from ..core import local_defs
+
+    out = set()
+    for st in ast.walk(func.node):
+        if isinstance(st, ast.Assign) and isinstance(st.targets[0], ast.Subscript) and norm(st.targets[0].value) == name and isinstance(st.value, ast.Constant) and isinstance(st.value.value, str):
+            out.add(st.value.value)
+        if isinstance(st, ast.Assign) and norm(st.targets[0]) == name:
+            if isinstance(st.value, ast.DictComp) and isinstance(st.value.value, ast.Constant) and isinstance(st.value.value.value, str):
+                out.add(st.value.value.value)
+            if isinstance(st.value, ast.Dict):
+                out |= {v.value for v in st.value.values if isinstance(v, ast.Constant) and isinstance(v.value, str)}
+    if out or depth > 2:
+        return out
+    ld = local_defs(func.node)
+    for d in ld.get(name, []):
+        if isinstance(d, ast.Subscript) and isinstance(const_value(d.slice), int):
+            pos, src = const_value(d.slice), d.value
+            if isinstance(src, ast.Name):
+                ds = [x for x in ld.get(src.id, []) if x is not None]
+                src = ds[0] if len(ds) == 1 else src
+            if isinstance(src, ast.Call):
+                h = repo.resolve_call(func, src)
+                if h is not None and h.name != "__init__":
+                    for r in ast.walk(h.node):
+                        if isinstance(r, ast.Return) and r.value is not None:
+                            v = r.value
+                            elts = None
+                            if isinstance(v, ast.Tuple):
+                                elts = list(v.elts)
+                            elif isinstance(v, ast.Call) and isinstance(h.module.consts.get(norm(v.func)), ast.Call) and norm(h.module.consts[norm(v.func)].func).endswith("namedtuple") and not v.keywords:
+                                elts = list(v.args)
+                            if elts and pos < len(elts) and isinstance(elts[pos], ast.Name):
+                                out |= dict_constants(repo, h, elts[pos].id, depth + 1)
+    return out
+
+
 def exhaustive_else(dec, st, stored_consts):
     """assert False must be the else-branch of an if/elif chain `v == c1 / v == c2 ...` where the tested
     constants cover every constant stored in the dictionary v is read from."""
@@ -224,8 +268,10 @@ def exhaustive_else(dec, st, stored_consts):
                 for a in walk_own(dec.node):
                     if isinstance(a, ast.Assign) and norm(a.targets[0]) == var and isinstance(a.value, ast.Subscript):
                         src = norm(a.value.value)
-                        have = stored_consts.get(src, set())
-                        if have and have <= chain_consts:
+                        have = stored_consts.get(src, set()) or dict_constants(REPO[0], dec, src)
+                        if not have:
+                            raise AnalysisError("R18.2", dec.where(st), f"cannot find the constants stored in `{src}` (the table the dispatch reads)")
+                        if have <= chain_consts:
                             return True, f"{var} in {sorted(chain_consts)}"
                         return False, f"dispatch over {sorted(chain_consts)} does not cover stored constants {sorted(have)}"
                 return False, f"cannot find the source of {var}"
@@ -306,18 +352,81 @@ def r18_4(ctx, m):
         if isinstance(st, ast.Try) and any(r in m.fail_returns for h in st.handlers for r in walk_stmts(h.body)):
             conds.append(st)
     ctx.require_count("R18.4", len(conds), 5, dec.where(), "shape conditions that lead to the skip return")
-    sn = [c for c in conds if "'SN'" in norm(c)]
+    repo = ctx.repo
+
+    def closure(node, depth=0, seen=None):
+        """Text of `node` plus, transitively, the definitions of the local names it reads: assigned values, values
+        appended / added to them, the guards of those appends, and the bodies of same-module helpers it calls."""
+        seen = seen if seen is not None else set()
+        out = [norm(node)]
+        if depth > 3:
+            return out
+        for x in ast.walk(node):
+            if isinstance(x, ast.Call):
+                h = repo.resolve_call(dec, x)
+                if h is not None and h.module is dec.module and h.qualname not in seen and h is not dec:
+                    seen.add(h.qualname)
+                    out.append(norm(h.node))
+            if isinstance(x, ast.Name) and x.id not in seen:
+                seen.add(x.id)
+                for st in walk_own(dec.node):
+                    if isinstance(st, ast.Assign) and any(x.id in names_in(t) for t in st.targets) and not any(y is st for y in ast.walk(node)):
+                        out += closure(st.value, depth + 1, seen)
+                    if isinstance(st, ast.Call) and isinstance(st.func, ast.Attribute) and st.func.attr in ("append", "add", "extend", "update") and isinstance(st.func.value, ast.Name) and st.func.value.id == x.id:
+                        for a in st.args:
+                            out += closure(a, depth + 1, seen)
+                        from .c09 import guards_of
+
+                        stmt = next((s_ for s_ in walk_stmts(dec.node.body) if isinstance(s_, ast.Expr) and s_.value is st), None)
+                        if stmt is not None:
+                            for t, _pol in guards_of(dec.node, stmt):
+                                out += closure(t, depth + 1, seen)
+        return out
+
+    def cond_expr(c):
+        return c.test if isinstance(c, ast.If) else c
+
+    ctext = {id(c): " ; ".join(closure(cond_expr(c))) for c in conds}
+    sn = [c for c in conds if "tags['SN']" in ctext[id(c)]]
     if not sn:
         ctx.violated("R18.4", dec.where(), "no skip condition looks at the contig names (SN) of the scaffold nodes: components joined through a haplotype are not recognised", key_of(dec, "sn-condition-missing"))
+    from ..core import resolve_expr
+
     for c in sn:
-        t = norm(c.test) if isinstance(c, ast.If) else norm(c)
-        subs = [s_ for s_ in ast.walk(c.test if isinstance(c, ast.If) else c) if isinstance(s_, ast.Subscript) and "tags['SN']" in norm(s_)]
+        t = resolve_expr(dec.node, cond_expr(c)) if isinstance(c, ast.If) else norm(c)
+        te = ast.parse(t, mode="eval").body if isinstance(c, ast.If) else c
+        subs = [s_ for s_ in ast.walk(te) if isinstance(s_, ast.Subscript) and "tags['SN']" in norm(s_)]
+        if not subs:
+            raise AnalysisError("R18.4", dec.where(c), "the contig-name condition is computed out of sight (helper / loop): cannot tell which element of the SN tag it compares")
         outer = [s_ for s_ in subs if norm(s_).endswith("tags['SN'][0]")]
-        cmp1 = any(isinstance(x, ast.Compare) and isinstance(x.left, ast.Call) and norm(x.left.func) == "len" and const_value(x.comparators[0], None) == 1 and isinstance(x.left.args[0], (ast.Call, ast.SetComp)) for x in ast.walk(c.test if isinstance(c, ast.If) else c))
+        cmp1 = any(isinstance(x, ast.Compare) and isinstance(x.left, ast.Call) and norm(x.left.func) == "len" and const_value(x.comparators[0], None) == 1 and isinstance(x.left.args[0], (ast.Call, ast.SetComp)) for x in ast.walk(te))
+        if not outer and not cmp1:
+            raise AnalysisError("R18.4", dec.where(c), f"the contig-name condition `{t[:100]}` is not of the recognised len(set(...)) != 1 form")
         ok = not outer and cmp1
         ctx.check(ok, "R18.4", dec.where(c), "the contig-name condition compares the SN tag values of the scaffold nodes (the whole tag or its value element), not the type letter, which is the same for every node", key_of(dec, f"sn-condition:{t[:120]}"), condition=t[:200])
-    deg = [c for c in conds if "degree" in norm(c)]
+    deg = [c for c in conds if "neighbors()" in ctext[id(c)]]
     ctx.check(len(deg) >= 2, "R18.4", dec.where(), "the degree census (two ends of degree 1, all others of degree 2) leads to the skip return", key_of(dec, f"degree-conditions:{len(deg)}"))
-    asc = [c for c in conds if "coordinates[" in norm(c)]
-    ok_asc = any(isinstance(c, ast.If) and norm(c.test).replace(" ", "") in ("notcoordinates[i]<coordinates[i+1]", "coordinates[i]>=coordinates[i+1]") for c in asc)
-    ctx.check(ok_asc, "R18.4", dec.where(), "scaffold offsets that do not strictly ascend along the chain lead to the skip return", key_of(dec, "ascending-condition"))
+    asc = [c for c in conds if "tags['SO']" in ctext[id(c)] and isinstance(c, ast.If)]
+    verdicts = []
+    for c in asc:
+        tt = norm(c.test).replace(" ", "")
+        import re as _re
+
+        strict = _re.fullmatch(r"not(\w+)\[(\w+)\]<\1\[\2\+1\]|(\w+)\[(\w+)\]>=\3\[\4\+1\]|(\w+)\[(\w+)\+1\]<=\5\[\6\]", tt)
+        weak = _re.fullmatch(r"not(\w+)\[(\w+)\]<=\1\[\2\+1\]|(\w+)\[(\w+)\]>\3\[\4\+1\]|(\w+)\[(\w+)\+1\]<\5\[\6\]", tt)
+        z_strict = _re.fullmatch(r"notall\(\(?(\w+)<(\w+)for\1,\2inzip\((\w+),\3\[1:\]\)\)?\)|any\(\(?(\w+)>=(\w+)for\4,\5inzip\((\w+),\6\[1:\]\)\)?\)|notall\(\(?(\w+)>(\w+)for\8,\7inzip\((\w+),\9\[1:\]\)\)?\)", tt)
+        z_weak = _re.fullmatch(r"notall\(\(?(\w+)<=(\w+)for\1,\2inzip\((\w+),\3\[1:\]\)\)?\)|any\(\(?(\w+)>(\w+)for\4,\5inzip\((\w+),\6\[1:\]\)\)?\)", tt)
+        if strict or z_strict:
+            verdicts.append(True)
+        elif weak or z_weak:
+            verdicts.append(False)
+    if not verdicts:
+        if asc:
+            # an orientation test (first vs last) alone is not the ascending check; a condition we cannot read is undecided
+            unread = [c for c in asc if "[0]" not in norm(c.test) or "[-1]" not in norm(c.test)]
+            if unread:
+                raise AnalysisError("R18.4", dec.where(unread[0]), f"cannot read the ascending-offset condition `{norm(unread[0].test)[:90]}`")
+        ok_asc = False
+    else:
+        ok_asc = all(verdicts)
+    ctx.check(ok_asc, "R18.4", dec.where(), "scaffold offsets that do not strictly ascend along the chain lead to the skip return", key_of(dec, f"ascending-condition:{verdicts}"))
